@@ -228,7 +228,11 @@ impl MachineAdapter for TestRunnerAdapter {
     }
 
     fn start(&mut self) -> MosResult<()> {
-        *self.state.lock().unwrap() = MachineRunningState::Running;
+        // Only a machine that is still launching can be started (a debugger may send 'configurationDone' again)
+        let mut state = self.state.lock().unwrap();
+        if *state == MachineRunningState::Launching {
+            *state = MachineRunningState::Running;
+        }
         Ok(())
     }
 
